@@ -19,15 +19,27 @@ pub mod poly {
     pub use crate::ntt::NttError;
 
     /// [`crate::ntt::ntt`]
-    pub fn ntt<F: NttFriendlyFieldElement>(outp: &mut [F], inp: &[F], size: usize) -> Result<(), NttError> {
+    pub fn ntt<F: NttFriendlyFieldElement>(
+        outp: &mut [F],
+        inp: &[F],
+        size: usize,
+    ) -> Result<(), NttError> {
         crate::ntt::ntt(outp, inp, size)
     }
     /// [`crate::ntt::ntt_set_s`]
-    pub fn ntt_set_s<F: NttFriendlyFieldElement>(outp: &mut [F], inp: &[F], size: usize) -> Result<(), NttError> {
+    pub fn ntt_set_s<F: NttFriendlyFieldElement>(
+        outp: &mut [F],
+        inp: &[F],
+        size: usize,
+    ) -> Result<(), NttError> {
         crate::ntt::ntt_set_s(outp, inp, size)
     }
     /// [`crate::ntt::ntt_inv`]
-    pub fn ntt_inv<F: NttFriendlyFieldElement>(outp: &mut [F], inp: &[F], size: usize) -> Result<(), NttError> {
+    pub fn ntt_inv<F: NttFriendlyFieldElement>(
+        outp: &mut [F],
+        inp: &[F],
+        size: usize,
+    ) -> Result<(), NttError> {
         crate::ntt::ntt_inv(outp, inp, size)
     }
     /// [`crate::ntt::get_ntt`]
@@ -35,7 +47,10 @@ pub mod poly {
         crate::ntt::get_ntt(inp, size)
     }
     /// [`crate::ntt::get_ntt_inv`]
-    pub fn get_ntt_inv<F: NttFriendlyFieldElement>(inp: &[F], size: usize) -> Result<Vec<F>, NttError> {
+    pub fn get_ntt_inv<F: NttFriendlyFieldElement>(
+        inp: &[F],
+        size: usize,
+    ) -> Result<Vec<F>, NttError> {
         crate::ntt::get_ntt_inv(inp, size)
     }
     /// [`crate::ntt::ntt_inv_finish`]
@@ -43,7 +58,10 @@ pub mod poly {
         crate::ntt::ntt_inv_finish(outp, size, size_inv)
     }
     /// [`crate::polynomial::poly_eval_lagrange_batched`]
-    pub fn poly_eval_lagrange_batched<F: NttFriendlyFieldElement, P: AsRef<[F]>>(polynomials: &[P], x: F) -> Vec<F> {
+    pub fn poly_eval_lagrange_batched<F: NttFriendlyFieldElement, P: AsRef<[F]>>(
+        polynomials: &[P],
+        x: F,
+    ) -> Vec<F> {
         crate::polynomial::poly_eval_lagrange_batched(polynomials, x)
     }
     /// [`crate::polynomial::nth_root_powers`]
@@ -51,15 +69,25 @@ pub mod poly {
         crate::polynomial::nth_root_powers(n)
     }
     /// [`crate::polynomial::extend_values_to_power_of_2`]
-    pub fn extend_values_to_power_of_2<F: NttFriendlyFieldElement>(polynomial: &mut [F], num_values: usize) {
+    pub fn extend_values_to_power_of_2<F: NttFriendlyFieldElement>(
+        polynomial: &mut [F],
+        num_values: usize,
+    ) {
         crate::polynomial::extend_values_to_power_of_2(polynomial, num_values)
     }
     /// [`crate::polynomial::double_evaluations`]
-    pub fn double_evaluations<F: NttFriendlyFieldElement>(output: &mut [F], evaluations: &[F]) -> Result<(), NttError> {
+    pub fn double_evaluations<F: NttFriendlyFieldElement>(
+        output: &mut [F],
+        evaluations: &[F],
+    ) -> Result<(), NttError> {
         crate::polynomial::double_evaluations(output, evaluations)
     }
     /// [`crate::polynomial::poly_mul_lagrange`]
-    pub fn poly_mul_lagrange<F: NttFriendlyFieldElement>(output: &mut [F], p: &[F], q: &[F]) -> Result<(), NttError> {
+    pub fn poly_mul_lagrange<F: NttFriendlyFieldElement>(
+        output: &mut [F],
+        p: &[F],
+        q: &[F],
+    ) -> Result<(), NttError> {
         crate::polynomial::poly_mul_lagrange(output, p, q)
     }
     /// [`crate::polynomial::poly_range_check`]
@@ -67,7 +95,11 @@ pub mod poly {
         crate::polynomial::poly_range_check(start, end)
     }
     /// [`crate::polynomial::poly_interpret_eval`]
-    pub fn poly_interpret_eval<F: NttFriendlyFieldElement>(points: &[F], eval_at: F, tmp_coeffs: &mut [F]) -> F {
+    pub fn poly_interpret_eval<F: NttFriendlyFieldElement>(
+        points: &[F],
+        eval_at: F,
+        tmp_coeffs: &mut [F],
+    ) -> F {
         crate::polynomial::poly_interpret_eval(points, eval_at, tmp_coeffs)
     }
     /// [`crate::polynomial::poly_eval_monomial`]
